@@ -163,6 +163,17 @@ pub fn run_c04(tier: &str, seed: u64, model: &Model, corpus: Vec<Case>) -> Repor
         let k = c.params[0] as usize;
         let norm = c.params[1] == 1;
         let oc = oligos.get(k, norm);
+        if c.kind == "oligobig" {
+            // run-length encoded record: `byte*count+byte*count…`
+            let mut seq: Vec<u8> = Vec::new();
+            for part in c.extra.split(' ').next().unwrap_or("").split('+') {
+                let mut it = part.split('*');
+                if let (Some(b), Some(n)) = (it.next(), it.next()) {
+                    seq.extend(std::iter::repeat(b.parse::<u8>().unwrap_or(b'N')).take(n.parse().unwrap_or(0)));
+                }
+            }
+            return format!("{}|1", bits(&oc.verif_vectorise_one(&seq)));
+        }
         let v = oc.verif_vectorise_one(&c.seq);
         let b = bits(&v);
         let mut inv = "1".to_string();
@@ -181,6 +192,19 @@ pub fn run_c04(tier: &str, seed: u64, model: &Model, corpus: Vec<Case>) -> Repor
     }
     let cases = oligo_cases(tier, &mut rng, &mut rep, kmax as u64);
     run_section(&mut rep, model, "oligo-one", cases, &run, &judge_oligo);
+    // one record with more windows in a single column than a 24-bit significand can count (2^24 = 16777216): the row must
+    // still be exact, which rules out single-precision (or otherwise lossy) accumulation
+    let mut big = Vec::new();
+    for (k, norm) in [(2u64, 0u64), (3, 1)] {
+        let mut c = Case::new("oligobig", &[k, norm], &[], "huge-record");
+        let n1 = 16_777_216 + 40 + rng.below(1000);
+        c.extra = format!("{}*{}+67*{}+78*3+71*{}+84*{} 20", *rng.pick(&[65u64, 84, 97]), n1, 50 + rng.below(100), rng.below(40), 2 + rng.below(9));
+        big.push(c);
+        if tier != "thorough" {
+            break;
+        }
+    }
+    run_section(&mut rep, model, "huge-record", big, &run, &judge_oligo);
     rep
 }
 
@@ -245,7 +269,14 @@ pub fn cov_cases(tier: &str, rng: &mut Rng) -> Vec<Case> {
             _ => rng.range(1, 6),
         };
         let (s, tag) = gen::sequence(rng, &[k as usize, k as usize + 1, 5 * k as usize], 300);
-        let bin_size = *rng.pick(&[1u64, 1, 2, 3, 5, 16, 100, 1 << 20, u32::MAX as u64]);
+        let bin_size = match rng.below(3) {
+            0 => rng.range(1, 400),
+            1 => {
+                let sh = rng.range(1, 32);
+                1 + rng.below(1 << sh)
+            }
+            _ => *rng.pick(&[1u64, 1, 2, 3, 5, 16, 100, 1 << 20, u32::MAX as u64]),
+        };
         let bin_count = *rng.pick(&[1u64, 2, 3, 5, 16, 40]);
         // multiplicities for some of the record's canonical k-mers (+ some foreign keys)
         let mut tbl: Vec<(u64, u32)> = Vec::new();
@@ -280,6 +311,36 @@ pub fn cov_cases(tier: &str, rng: &mut Rng) -> Vec<Case> {
     cases
 }
 
+/// Every bin size 1..=700 (and a few large ones) with multiplicities that are exact multiples of it (and one below): the
+/// boundaries of `floor(c / bin_size)`, where a reciprocal-multiply or other inexact quotient first goes wrong.
+pub fn cov_boundary_cases(rng: &mut Rng) -> Vec<Case> {
+    let mut cases = Vec::new();
+    let sizes: Vec<u64> = (1..=700u64).chain([1000, 4097, 65_537, 1_000_003, 16_777_217, 100_000_007]).collect();
+    for bs in sizes {
+        let k = 4usize;
+        let s: Vec<u8> = (0..160).map(|_| b"ACGT"[rng.below(4) as usize]).collect();
+        let bin_count = 41u64;
+        let mut tbl: Vec<(u64, u32)> = Vec::new();
+        let mut seen = std::collections::HashSet::new();
+        for (f, r) in kmer::kmer::KmerGenerator::new(&s, k) {
+            let x = f.min(r);
+            if seen.insert(x) {
+                let m = tbl.len() as u64 / 2 + 1;
+                let c = (m * bs - (tbl.len() as u64 % 2)).min(u32::MAX as u64) as u32;
+                tbl.push((x, c));
+                if tbl.len() >= 80 {
+                    break;
+                }
+            }
+        }
+        let tbl_s = tbl.iter().map(|(a, b)| format!("{}:{}", a, b)).collect::<Vec<_>>().join(",");
+        let mut c = Case::new("cov", &[k as u64, bs, bin_count, rng.below(2)], &s, "bin-boundaries");
+        c.extra = format!("20 {}", tbl_s);
+        cases.push(c);
+    }
+    cases
+}
+
 pub fn impl_cov(c: &Case) -> String {
     let (k, bs, bc, norm) = (c.params[0] as usize, c.params[1] as usize, c.params[2] as usize, c.params[3] == 1);
     let tbl = parse_tbl(c.extra.split(' ').nth(1).unwrap_or("-"));
@@ -295,6 +356,8 @@ pub fn run_c08_one(tier: &str, rng: &mut Rng, model: &Model, rep: &mut Report, c
     }
     let cases = cov_cases(tier, rng);
     run_section(rep, model, "cov-one", cases, &impl_cov, &judge_cov);
+    let cases = cov_boundary_cases(rng);
+    run_section(rep, model, "cov-bin-boundaries", cases, &impl_cov, &judge_cov);
 }
 
 // ---------------------------------------------------------------- C11
